@@ -341,10 +341,7 @@ impl<'lifespan> From<Vec<(ElementSpecification<'lifespan>, i32)>>
     for ChemicalCompositionVec<'lifespan>
 {
     fn from(elements: Vec<(ElementSpecification<'lifespan>, i32)>) -> Self {
-        ChemicalCompositionVec {
-            composition: elements,
-            mass_cache: None,
-        }
+        elements.into_iter().collect()
     }
 }
 
